@@ -3,7 +3,7 @@ PROP = dict(
     gotest="TestC02",
     model="coq/Models/Shares.v on coq/Models/SumLedger.v (TotalShares / bank supply / per-account committed shares / commitment custody, handler primitives mint-send-commit and uncommit-send-burn)",
     coq_deps=["Base/", "Models/SumLedger.v", "Proofs/SumLedgerProofs.v", "Models/Shares.v", "Proofs/SharesProofs.v", "Run/SharesRun.v", "Props/C02.v"],
-    rule="the shared ledger histories (see C01): pool creation, all-asset and single-asset joins, exits (pro-rata and single-sided), leveraged-LP opens/closes/liquidations "
+    rule="the shared ledger histories (see C01; two of three with a second oracle pool whose shares are held by the same accounts and by leveraged-LP positions of the same owners): pool creation, all-asset and single-asset joins, exits (pro-rata and single-sided), leveraged-LP opens/closes/liquidations "
          "(position addresses are share holders) by several accounts; every step's committed share mints/burns (coinbase/burn events, with the receiving/paying account) "
          "are replayed through the Coq machine of that pool and TotalShares, supply, commitment-module balance and the touched accounts' committed shares compared; "
          "non-trivial = at least one successful tx",
